@@ -108,7 +108,7 @@ theorem count_operand (c1 : NS) (g1 : Spec.GV) (i1 : Inv c1 g1) (c : Int) (hcnt 
     · simp [hc] at hcnt
 
 /-- **shift node** -/
-theorem shiftNode_correct (env : Env) (henv : env.noFrame = false) (a : Act) (ha : isShift a = true) (c0 c1 : NS)
+theorem shiftNode_correct (env : Env) (a : Act) (ha : isShift a = true) (c0 c1 : NS)
     (g0 g1 gv : Spec.GV) (i0 : Inv c0 g0) (i1 : Inv c1 g1) (hgo : Spec.shiftGo a g0 g1 = .ok gv) :
     ∃ n, shiftNodeY F0 env none a c0 c1 = .ok n ∧ Inv n gv := by
   simp only [Spec.shiftGo] at hgo
@@ -147,6 +147,6 @@ theorem shiftNode_correct (env : Env) (henv : env.noFrame = false) (a : Act) (ha
           simp [shiftLeftY, h0ty, h0rv, Ty.untyped, Ty.isInt, Ty.rtype, BT.isInt]
         have hf := foldShiftY_typed a ha k v c1'.rv c hv hv1 hc0 hc100 hr
         refine ⟨{ rv := .r (.i k) (.int (sh a v c.toNat)), ty := .t (.i k) }, ?_, Inv.of_typed _ _ _ rfl rfl hr⟩
-        simp [shiftNodeY, checkShiftY, hl, hc1, h0ty, h0rv, Ty.untyped, hf, fixUntypedY, henv]
+        simp [shiftNodeY, checkShiftY, hl, hc1, h0ty, h0rv, Ty.untyped, hf, fixUntypedY]
 
 end YaegiVerif.Proofs.C03
